@@ -1185,17 +1185,17 @@ def run(ctx: Ctx, replay=None) -> int:
         return ctx.finish()
     with ctx.timed("correspond"):
         k_direct(ctx, 0, extra=load_corpus())
-        k_circuits(ctx, ctx.n(500, 4000))
-        k_direct(ctx, ctx.n(500, 4000))
-        k_numerical(ctx, ctx.n(150, 1500))
+        k_circuits(ctx, ctx.n(500, 8000))
+        k_direct(ctx, ctx.n(500, 8000))
+        k_numerical(ctx, ctx.n(150, 3000))
         if not ctx.quick():
             exhaustive_small(ctx)
     with ctx.timed("f6_replay"):
         f6_replay(ctx, ctx.n(5, 60))
     broken = bool(ctx.failed_obligations or ctx.disagreements)
     with ctx.timed("oracle_validation"):
-        budget = (25 if ctx.quick() else 240) * (3 if broken else 1)
-        validate(ctx, budget, ctx.n(600, 20000) * (3 if broken else 1))
+        budget = (25 if ctx.quick() else 280) * (2 if broken else 1)
+        validate(ctx, budget, ctx.n(600, 50000) * (2 if broken else 1))
     keys = {}
     for w in ctx.witnesses:
         keys[w["key"]] = keys.get(w["key"], 0) + 1
